@@ -126,9 +126,38 @@ impl Prop for C02 {
         }
       }
     }
+    // the same oracle for an object whose construction was observed (source() and size() asked after every mutating
+    // call of every ReplaceSource / ConcatSource of the tree): positions are those of the finished text, and the text
+    // this very object returns from source() ends where its streams say it ends
+    let observed = spec.any(&|s| matches!(s, Spec::Replace { repls, .. } if !repls.is_empty()) || matches!(s, Spec::Concat { children, .. } if children.len() >= 2));
+    if observed {
+      let obj = guard(|| {
+        crate::build::build_observed(spec, &mut |s| {
+          let _ = s.source().len();
+          let _ = s.size();
+        })
+      })
+      .map_err(|p| format!("observed construction: {p}"))?;
+      for columns in [true, false] {
+        for final_source in [false, true] {
+          let st = guard(|| stream(&*obj, &opts(columns, final_source)))
+            .map_err(|p| format!("columns={columns} final_source={final_source} (object observed while under construction): {p}"))?;
+          check_stream(&st, &want, &pos, end, final_source)
+            .map_err(|e| format!("columns={columns} final_source={final_source} (object observed while under construction): {e}"))?;
+        }
+      }
+      let own = guard(|| obj.source().to_string()).map_err(|p| format!("source() of the observed object: {p}"))?;
+      let own_end = positions(&own).1;
+      if own_end != end {
+        return Err(format!(
+          "an object observed while under construction: its streams end at {}:{} but its source() {own:?} ends at {}:{}",
+          end.0, end.1, own_end.0, own_end.1
+        ));
+      }
+    }
     let mut info = CaseInfo::nt(linebreak_edit(spec) || shares_line(spec));
     tree_classes(spec, &mut info);
-    Ok(info.class(shares_line(spec), "children sharing an output line"))
+    Ok(info.class(shares_line(spec), "children sharing an output line").class(observed, "also built with observers between the mutating calls"))
   }
 }
 
